@@ -71,7 +71,7 @@ STATEMENT_FAULTS: typing.Dict[str, typing.Tuple[typing.List[str], int]] = {
     "type:undefined-in-array": (["ns.Nope.2.3[<=2] missing"], 0),
 }
 ATTRIBUTE_DEFERRED = {"attribute:reserved-name", "attribute:reserved-name-const", "attribute:constant-out-of-range", "attribute:constant-not-integer", "attribute:named-void"}
-DEFINITION_FAULTS = ["definition:missing-sealed", "definition:duplicate-names", "definition:union-arity", "definition:extent-too-small", "definition:extent-unaligned"]
+DEFINITION_FAULTS = ["definition:missing-sealed", "definition:duplicate-names", "definition:union-arity", "definition:extent-too-small", "definition:extent-unaligned", "definition:unregulated-port"]
 EXTENT_FAULTS = {"definition:extent-too-small": "@extent 8", "definition:extent-unaligned": "@extent 1234567"}
 
 
@@ -97,6 +97,7 @@ def build_files(case: typing.Any) -> typing.Tuple[typing.Dict[str, str], typing.
     expect: typing.Optional[typing.Dict[str, typing.Any]] = None
     prints: typing.List[typing.Tuple[str, int, str]] = []
     counter = 0
+    target_disk_name = names[0]
     for fi, fn in enumerate(names):
         spec = case["files"][fi]
         lines: typing.List[str] = []
@@ -217,6 +218,12 @@ def build_files(case: typing.Any) -> typing.Tuple[typing.Dict[str, str], typing.
             lines.append(mode_lines[last_section])  # @extent goes after the last attribute of its section
             kinds.append(mode_kinds[last_section])
         eol = "\r\n" if spec["crlf"] else "\n"
+        if cat == "definition:unregulated-port":
+            # the fault sits in the file *name*: a fixed port-ID outside the regulated range of a vendor namespace (the flag that
+            # would allow it is off); the text is fine, references to the type do not mention the port-ID
+            fn = ("500." if split_at is not None else "8000.") + fn
+        if fi == 0:
+            target_disk_name = fn
         texts[fn] = eol.join(lines) + (eol if spec["final_newline"] else "")
         if is_fault_file:
             assert cat is not None
@@ -229,6 +236,8 @@ def build_files(case: typing.Any) -> typing.Tuple[typing.Dict[str, str], typing.
             else:
                 participants = [i + 1 for i, k in enumerate(kinds) if k in ("participant", "unionfield")] + ([spec.get("lead", 0) + 1] if union_arity else [])
                 expect = {"file": fn, "cat": cat, "lines": sorted(set(participants)), "statement": False, "kinds_before": [], "followed_by_comment": False}
+    if expect is not None:
+        expect["target"] = target_disk_name
     return texts, expect, prints
 
 
@@ -252,12 +261,12 @@ def check_fault(case: typing.Any, ctx: Ctx) -> Info:
         if case["api"] == "namespace":
             res, ex = guarded(pydsdl.read_namespace, root, [], allowed=(pydsdl.InvalidDefinitionError,), what="read_namespace")
         else:
-            res, ex = guarded(pydsdl.read_files, [os.path.join(root, "T.1.0.dsdl")], [root], allowed=(pydsdl.InvalidDefinitionError,), what="read_files")
+            res, ex = guarded(pydsdl.read_files, [os.path.join(root, expect["target"])], [root], allowed=(pydsdl.InvalidDefinitionError,), what="read_files")
         where = "fault %s at %s:%s\n" % (expect["cat"], expect["file"], expect.get("line", expect.get("lines"))) + "\n".join(
             "--- %s\n%s" % (fn, tx) for fn, tx in texts.items()
         )
         require(ex is not None, "fault-not-reported", expect["cat"], "accepted", where)
-        in_dep = expect["file"] != "T.1.0.dsdl"
+        in_dep = expect["file"] != expect["target"]
         suffix = ":dependency" if in_dep else ""
         got_path = os.path.realpath(str(ex.path)) if ex.path else None
         want_path = os.path.realpath(os.path.join(root, expect["file"]))
